@@ -15,10 +15,12 @@ RULE = ('case = (content kind in {raw body, urlencoded form, JSON, multipart tex
         'one huge chunk, read fragmentation caps). Oracle from a recording wsgi.input: S > M => 413 and the payload bytes handed out by the stream <= M + B '
         '(chunk framing bytes mapped back to payload offsets); S <= M => raw body accepted and byte-identical; accepted raw body with S > B => Request.body '
         'is a real file (not BytesIO, fileno() works) with identical content; urlencoded / JSON text > B and multipart header+text bytes > B => refused with '
-        'a 4xx and the handler never obtains the value, <= B => delivered exactly; file parts far beyond B are accepted byte-identically; with the temporary directory made unusable (fault injection) a raw body above B is never accepted from memory. Non-trivial = S '
+        'a 4xx and the handler never obtains the value, <= B => delivered exactly; file parts far beyond B are accepted byte-identically; with the temporary directory made unusable (fault injection) a raw body above B is never accepted from memory. Plus sequences of 2-3 raw bodies on ONE request object: after the first body was read (accepted or refused) the handler registers the next stream through request["wsgi.input"] = stream (and request["CONTENT_LENGTH"], before or after it) and reads the body again; every body of the sequence is judged by the same rule (over M => 413 after at most M + B payload bytes of its own stream, within M => accepted byte-identically). Non-trivial = S '
         'within one buffer of M or of B (or M+B), or the body spilled; distinct by case hash.')
 ASSUMPTIONS = ['wsgi.input may return short reads', 'for chunked framing B >= length of the longest chunk-size line (stated precondition of the scanner)',
-               '"refused" = any 4xx (the configured mapping gives 413)']
+               '"refused" = any 4xx (the configured mapping gives 413)',
+               'sequences of bodies with Content-Length framing: every registered stream ends with its body and no later body is longer than the first one '
+               '(whether a CONTENT_LENGTH re-assigned through the request object is honoured is not part of this property); chunked sequences are unrestricted']
 
 
 def data_of(n, salt=0):
@@ -328,6 +330,94 @@ def check_case(ctx, case):
         ctx.nontrivial(case, sample=case)
 
 
+def check_sequence(ctx, case):
+    """Several bodies, one after the other, on one request object: the first arrives with the request, every further one is a stream the handler registers
+    through request['wsgi.input'] = ... (the documented way to replace the input). The limit rule applies to each of them on its own."""
+    import ombott
+    M, B, sizes = case['M'], case['B'], case['sizes']
+    chunked = case.get('chunks') is not None
+    cfg = {'max_memfile_size': B}
+    if M is not None:
+        cfg['max_body_size'] = M
+    app = ombott.Ombott(cfg)
+    bodies = [data_of(S, 3 * i) for i, S in enumerate(sizes)]
+    streams, layouts = [], []
+    for b in bodies:
+        if chunked:
+            wire, layout = encode_chunked(b, case['chunks'], [{'upper': False, 'zeros': 0}])
+            if max(e - s_ for k, s_, e in layout if k in ('size', 'last')) > B:
+                ctx.exclude('size_line_longer_than_buffer')
+                return
+        else:
+            wire, layout = b, None
+        # (a chunked stream goes on behind the coding; a stream registered with a declared length is a complete one that ends with its body)
+        streams.append(FragStream(wire + (b'#SENTINEL#' if chunked else b''), case.get('pattern') or []))
+        layouts.append(layout)
+    results = []
+
+    def h():
+        rq = app.request
+        for i in range(len(bodies)):
+            if i:
+                if not chunked and case.get('order') != 'stream_first':
+                    rq['CONTENT_LENGTH'] = str(len(bodies[i]))
+                rq['wsgi.input'] = streams[i]
+                if not chunked and case.get('order') == 'stream_first':
+                    rq['CONTENT_LENGTH'] = str(len(bodies[i]))
+            try:
+                f = rq.body
+                results.append((200, f.read(), type(f).__name__))
+            except Exception as e:  # the refusal is an HTTPError carrying the status
+                results.append((getattr(e, 'status_code', None) or fmt_exc(e), None, None))
+        return 'ok'
+    app.route('/u', method='POST', callback=h)
+    headers = {'Content-Type': 'application/octet-stream'}
+    if chunked:
+        headers['Transfer-Encoding'] = 'chunked'
+    env = make_environ('POST', '/u', stream=streams[0], content_length=None if chunked else len(bodies[0]), headers=headers)
+    r = call_app(app, env)
+    what = f'bodies of {sizes} bytes in turn on one request object (each further one registered through request["wsgi.input"] = stream' + \
+           ('' if chunked else f', CONTENT_LENGTH assigned {"after" if case.get("order") == "stream_first" else "before"} it') + \
+           f'), M={M} B={B} framing={"chunked " + str(case["chunks"][:4]) if chunked else "length"}'
+    if r.escaped is not None or r.code != 200 or len(results) != len(bodies):
+        raise CheckFailure(f'{what}: the handler that catches every refusal answered {r.status!r} after {len(results)} bodies {fmt_exc(r.escaped) if r.escaped else r.errors[-300:]}')
+    for i, (b, (status, got, typ)) in enumerate(zip(bodies, results)):
+        over = M is not None and len(b) > M
+        consumed = payload_consumed(layouts[i], streams[i].pos) if chunked else min(streams[i].pos, len(b))
+        history = [('refused' if M is not None and len(x) > M else 'accepted') for x in bodies[:i]]
+        if over:
+            if status != 413:
+                raise CheckFailure(f'{what}: body #{i} ({len(b)} bytes, earlier bodies: {history}) exceeds max_body_size but reading it gave {status!r}')
+            if consumed > M + B:
+                raise CheckFailure(f'{what}: body #{i}: {consumed} payload bytes were read from its stream before the 413; limit + one buffer = {M + B}')
+        else:
+            if status != 200:
+                raise CheckFailure(f'{what}: body #{i} ({len(b)} bytes, earlier bodies: {history}) is within max_body_size but reading it gave {status!r}')
+            if got != b:
+                raise CheckFailure(f'{what}: body #{i} ({len(b)} bytes, earlier bodies: {history}) was accepted with other content ({len(got)} bytes, starts {got[:20]!r})')
+            if len(b) > B and typ == 'BytesIO':
+                raise CheckFailure(f'{what}: body #{i} larger than max_memfile_size is held in memory')
+        if i:
+            ctx.count('body_registered_after_a_%s_one_%s' % (history[-1], 'refused' if over else 'accepted'))
+    ctx.count('sequence_of_bodies_on_one_request_object')
+    ctx.nontrivial(case, sample=case)
+
+
+@st.composite
+def seq_st(draw):
+    chunked = draw(st.booleans())
+    B = draw(st.sampled_from([8, 33, 64, 256]))
+    M = draw(st.sampled_from([None, 1, 20, 100, 1000]) | st.integers(0, 600))
+    cands = [0, 1, B, B + 1, 3 * B] + ([M - 1, M, M + 1, M + B, M + B + 1, 3 * M + 2] if M is not None else [])
+    size = st.sampled_from([c for c in cands if c >= 0]) | st.integers(0, 700)
+    sizes = draw(st.lists(size, min_size=2, max_size=3))
+    if not chunked:
+        sizes.sort(reverse=True)          # see ASSUMPTIONS
+    return {'seq': True, 'M': M, 'B': B, 'sizes': sizes, 'order': draw(st.sampled_from(['cl_first', 'stream_first'])),
+            'chunks': draw(st.sampled_from([[3] * 2000, [B], [B + 1, 2 * B + 3], [100000]])) if chunked else None,
+            'pattern': draw(st.one_of(st.just([]), st.lists(st.integers(1, 300), min_size=1, max_size=4)))}
+
+
 @st.composite
 def case_st(draw):
     kind = draw(st.sampled_from(['raw', 'raw', 'urlencoded', 'json', 'mp_text', 'mp_text', 'mp_file', 'mp_emptyfn', 'mp_epilogue', 'mp_preamble']))
@@ -371,7 +461,7 @@ def case_st(draw):
 
 def run(ctx):
     for name, case in load_corpus(ID):
-        ctx.guarded(check_case, case)
+        ctx.guarded(check_sequence if case.get('seq') else check_case, case)
         ctx.count('corpus')
     if ctx.shard == 0:
         # grid around the limits (property's own enumeration): every kind x framing x edge size
@@ -435,9 +525,23 @@ def run(ctx):
                     for np_ in (2, 3):
                         ctx.guarded(check_case, {'kind': 'mp_text', 'S': S, 'M': None, 'B': B, 'nparts': np_, 'chunks': chunks, 'pattern': [], 'exact_first': True})
         ctx.count('limit_grid')
+        # two / three bodies in turn on one request object, every combination of within / at / over the limit, both framings, both assignment orders
+        for M, B in ((100, 32), (20, 8)):
+            edge = (0, M - 1, M, M + 1, 5 * M)
+            for chunks in (None, [9], [100000]):
+                for order in (('cl_first', 'stream_first') if chunks is None else ('cl_first',)):
+                    for s1 in edge:
+                        for s2 in edge:
+                            if chunks is None and s2 > s1:
+                                continue          # see ASSUMPTIONS
+                            ctx.guarded(check_sequence, {'seq': True, 'M': M, 'B': B, 'sizes': [s1, s2], 'order': order, 'chunks': chunks, 'pattern': []})
+                    for sizes in ([M + 1, M + 1, M], [5 * M, 40, M + 1]) + (([M, 5 * M, M],) if chunks is not None else ()):
+                        ctx.guarded(check_sequence, {'seq': True, 'M': M, 'B': B, 'sizes': sizes, 'order': order, 'chunks': chunks, 'pattern': [7]})
+        ctx.count('body_sequence_grid')
     n = 2500 if ctx.tier == 'quick' else 25000
     ctx.hyp(case_st(), check_case, n)
+    ctx.hyp(seq_st(), check_sequence, n // 5, label='sequence')
 
 
 def replay(ctx, case):
-    check_case(ctx, case)
+    (check_sequence if case.get('seq') else check_case)(ctx, case)
